@@ -69,6 +69,10 @@ def check(run, project):
     # and the complete one leave surplus bytes: the decode facets of all types equal the pinned snapshot
     from . import c20 as _c20
     _c20.t6(run, project, L, facets={"decode"}, rule="E4")
+    # E5: the depleted / superfluous errors are RAISED (with the command code and the remaining bytes to read) by a strict
+    # decode, and strict is what a caller gets who says nothing - also through Canonical, the object front door
+    from .shared import canonical_mode_default
+    canonical_mode_default(run, project, "E5", "a truncated or over-long input ends in a warning event instead of the error")
     run.cover(cfg_nodes=len(F.cfg.nodes), node_states=sum(len(s) for s in F.states.values()))
     mode = "abort_on_error"
     if mode not in [a.arg for a in fn.args.args]:
